@@ -218,6 +218,52 @@ def check(run: Run) -> None:
                         run.report("C06/" + ("signed-storage" if signed and "dumps" in str(prob["observed"]) else "slicing"),
                                    {**c.describe(), "ops": [{"op": "parse+dump", "data": d.hex(), **prob}]})
 
+    # ---- fixed scenarios outside the slicing reference's reach ----
+    import sys as _sys
+    for compiled in (False, True):
+        # (a) native byte order: '@' and '=' are the machine's order, for the bit order inside a unit as for the bytes
+        for e in ("@", "="):
+            same = "<" if _sys.byteorder == "little" else ">"
+            ca, cb = structs.load("struct main { uint16 a : 4; uint16 b : 12; uint8 c : 3; uint8 d : 5; };", endian=e, compiled=compiled), \
+                structs.load("struct main { uint16 a : 4; uint16 b : 12; uint8 c : 3; uint8 d : 5; };", endian=same, compiled=compiled)
+            d = bytes([0x21, 0x43, 0xA5])
+            va, vb = ca.main(d), cb.main(d)
+            got, want = (va.a, va.b, va.c, va.d, va.dumps().hex()), (vb.a, vb.b, vb.c, vb.d, vb.dumps().hex())
+            if got != want:
+                failures += 1
+                run.report("C06/native-bit-order", {"definition": "struct main { uint16 a : 4; uint16 b : 12; uint8 c : 3; uint8 d : 5; };", "cstruct_kwargs": {"endian": e, "pointer": None},
+                           "load_kwargs": {"compiled": compiled, "align": False}, "ops": [{"op": "parse+dump", "data": d.hex(), "observed": repr(got), "expected": repr(want) + f" (what endian={same!r} gives on this machine)"}]})
+        # (b) aligned mode with a storage type whose alignment differs from its size (int24 / int48): the fields of one unit share it (recorded finding)
+        for text, data, want_vals, want_len in [("struct main { uint24 a : 4; uint24 b : 4; };", bytes.fromhex("21a1a2b1"), (1, 2), 4),
+                                                ("struct main { uint8 f0; uint48 f1 : 41; uint48 f2 : 7; uint16 f3; };", bytes(range(1, 25)), None, None)]:
+            cs_b = structs.load(text, compiled=compiled, align=True)
+            T = cs_b.main
+            try:
+                v = T(data)
+                out = v.dumps()
+                v2 = T(out + bytes(8))
+                names = [f._name for f in T.__fields__]
+                probs = []
+                if [getattr(v, n) for n in names] != [getattr(v2, n) for n in names]:
+                    probs.append(f"parse(dumps(v)) differs from v: {[int(getattr(v2, n)) for n in names]} vs {[int(getattr(v, n)) for n in names]}")
+                if len(out) != len(T):
+                    probs.append(f"dumps gives {len(out)} bytes, len(T) is {len(T)}")
+                if want_vals is not None and (tuple(int(getattr(v, n)) for n in names) != want_vals or len(T) != want_len):
+                    probs.append(f"values {[int(getattr(v, n)) for n in names]}, size {len(T)}; expected {want_vals}, {want_len}")
+            except Exception as e:  # noqa: BLE001
+                probs = [f"{type(e).__name__}: {e}"]
+            if probs:
+                failures += 1
+                run.report("C06/aligned-odd-size-unit", {"definition": text, "load_kwargs": {"compiled": compiled, "align": True}, "ops": [{"op": "parse, dump, parse", "data": data.hex(), "observed": probs,
+                           "expected": "the fields of one storage unit share it in layout, reader and writer"}]})
+        # (c) bit-field members of a union keep their width (recorded finding)
+        cs_c = structs.load("union main { uint8 a : 4; uint8 b : 2; uint16 c; };", compiled=compiled)
+        v = cs_c.main(b"\xff\xff")
+        if (int(v.a), int(v.b)) != (15, 3):
+            failures += 1
+            run.report("C06/union-bit-field-width", {"definition": "union main { uint8 a : 4; uint8 b : 2; uint16 c; };", "load_kwargs": {"compiled": compiled, "align": False},
+                       "ops": [{"op": "parse", "data": "ffff", "observed": f"a={int(v.a)} b={int(v.b)}", "expected": "a=15 b=3: each value in [0, 2^bits)"}]})
+
     mism = run_items(run, items)
     report_unexplained(run, mism, explained, "corr_bits (Model.Reader/Writer/Layout vs bit-field structures)")
     if not ok and not failures and not mism:
